@@ -94,8 +94,7 @@ def outgoing(pid):
         import spec_attest
         akw = dict(pid=pid, module="Attest", mcmodule="AttestMC", pkg="attest",
                    formulas=dict(invariants=["C06_HeightFromObservedOnly"], properties=[], p_properties=[]),
-                   mc_cfgs=[c for c in spec_attest.ATTEST_MC if c["name"] == "mc2"],
-                   gen_cfgs=[dict(c, tiers=["quick", "thorough", "dev"]) for c in spec_attest.ATTEST_GEN if c["name"] == "gen2odd"],
+                   mc_cfgs=[spec_attest.ATTEST_MC_HEIGHT], gen_cfgs=[spec_attest.ATTEST_GEN_HEIGHT],
                    reset_op=spec_attest.ATTEST_RESET, level_note="", design_ref="5/C06", assumptions=[], never_ok=("Unbond",))
         if getattr(args, "replay", None):
             return graph_property(work, args, **akw)
